@@ -3,10 +3,15 @@
    prod, unit, sumbool -> OCaml's); nat, N, Z, positive stay the extracted inductive types;
    no Extract Constant. *)
 From Coq Require Extraction ExtrOcamlBasic.
-From NV Require Model.Base Model.Diag Model.Errors Model.Cli.
+From NV Require Model.Base Model.Diag Model.Errors Model.Cli Model.NumRe Model.Lexer Spec.TruePos Spec.Normalise Spec.LexProps.
 Extraction Language OCaml.
 Set Extraction KeepSingleton.
 Extraction "../build/ml/nvmodel.ml"
   Model.Base.dec_of_Z Model.Errors.sort_diags Model.Errors.human_fmt Model.Cli.run_all
   Gen.ErrOrder.hl_lt Gen.ErrOrder.err_lt Gen.ErrOrder.status Gen.MainExit.exit_code
-  Model.Errors.human_view Model.Errors.json_view.
+  Model.Errors.human_view Model.Errors.json_view
+  Model.Lexer.lex Model.Lexer.tokens_of Model.NumRe.int_match Model.NumRe.fexp_match Model.NumRe.ffrac_match
+  Model.NumRe.fhex_match Model.NumRe.exp_ok Model.Lexer.peek1 Model.Lexer.peek2
+  Spec.TruePos.all_positions Spec.TruePos.true_pos Spec.Normalise.normalise Spec.Normalise.is_splice
+  Spec.LexProps.c09_ok Spec.LexProps.c10_ok Spec.LexProps.items_of_spans Spec.LexProps.c09_item_ok Spec.LexProps.c10_item_ok
+  Spec.LexProps.spans_tile.
